@@ -13,8 +13,10 @@ THEOREMS = ["Gozod.C10." + t for t in [
     "c10_ok_iff_no_fail", "c10_ok_value", "firstPass_early", "c10_runOn_issues", "c10_runOn_ok_iff",
     "c10_value_threading_partial", "c10_abort_stops_partial", "c10_transform_once", "c10_pipe",
     "c10_pipe_ok_iff", "c10_base_ok_iff", "c10_base_ok_value", "c10_first_pass_witness",
-    "firstPassC_cooked", "firstPassC_vacFree", "c10_container_partial", "c10_container_ok_iff",
-    "c10_container_first_pass_witness", "parsePipelineK_erase"]]
+    "c10_abort_stops_all", "c10_legacy_runOn_issues", "c10_legacy_first_pass_witness",
+    "firstPassC_cooked", "firstPassC_vacFree", "runFrom_issues_ne_nil", "firstPassC_of_ok", "c10_container_all",
+    "c10_container_ok_iff", "c10_container_abort", "c10_legacy_container_partial", "c10_legacy_container_witness",
+    "parsePipelineK_erase"]]
 
 def key(op, impl, M, S):
     how = C.op_comment(op)
